@@ -25,6 +25,15 @@ pub struct GeoCase {
     pos: u64,
     /// Some(terminal width, left literal, right literal) = wide_bar
     wide: Option<(u16, String, String)>,
+    /// wide_bar only: literal template lines above / below the line that holds the bar
+    #[serde(default)]
+    extra: (Option<String>, Option<String>),
+    /// wide_bar only: the bar is a member of a MultiProgress / the terminal had this other width when the
+    /// previous frame was drawn (the frame under test must fit the width the terminal reports now)
+    #[serde(default)]
+    in_multi: bool,
+    #[serde(default)]
+    resized_from: Option<u16>,
 }
 
 struct Parsed {
@@ -135,11 +144,19 @@ fn frac_key(slot: Arc<AtomicU32>) -> impl Fn(&ProgressState, &mut dyn std::fmt::
 
 struct Rig {
     pb: ProgressBar,
+    _mp: Option<indicatif::MultiProgress>,
     vt: VTerm,
     frac: Arc<AtomicU32>,
+    /// lines the template yields and which of them holds the bar
+    nlines: usize,
+    bar_line: usize,
 }
 
 fn rig(chars: &str, template: &str, cols: u16) -> Result<Rig, String> {
+    rig_in(chars, template, cols, false)
+}
+
+fn rig_in(chars: &str, template: &str, cols: u16, in_multi: bool) -> Result<Rig, String> {
     let frac = Arc::new(AtomicU32::new(0));
     let f2 = frac.clone();
     let chars = chars.to_string();
@@ -148,11 +165,17 @@ fn rig(chars: &str, template: &str, cols: u16) -> Result<Rig, String> {
     let vt2 = vt.clone();
     let pb = catch(move || {
         let style = ProgressStyle::with_template(&template).expect("template").progress_chars(&chars).with_key("frac", frac_key(f2));
-        let pb = ProgressBar::with_draw_target(Some(1), ProgressDrawTarget::term_like(vt2.boxed()));
+        let (pb, mp) = if in_multi {
+            let mp = indicatif::MultiProgress::with_draw_target(ProgressDrawTarget::term_like(vt2.boxed()));
+            (mp.add(ProgressBar::new(1)), Some(mp))
+        } else {
+            (ProgressBar::with_draw_target(Some(1), ProgressDrawTarget::term_like(vt2.boxed())), None)
+        };
         pb.set_style(style);
-        pb
+        (pb, mp)
     })?;
-    Ok(Rig { pb, vt, frac })
+    let (pb, mp) = pb;
+    Ok(Rig { pb, _mp: mp, vt, frac, nlines: 1, bar_line: 0 })
 }
 
 impl Rig {
@@ -172,10 +195,10 @@ impl Rig {
             };
         })?;
         let lines = self.vt.last_frame_lines()?;
-        if lines.len() != 1 {
-            return Err(format!("expected one line, got {lines:?}"));
+        if lines.len() != self.nlines {
+            return Err(format!("expected {} line(s), got {lines:?}", self.nlines));
         }
-        Ok((lines[0].clone(), f32::from_bits(self.frac.load(Ordering::SeqCst))))
+        Ok((lines[self.bar_line].clone(), f32::from_bits(self.frac.load(Ordering::SeqCst))))
     }
 }
 
@@ -199,8 +222,32 @@ fn run_geo(c: &GeoCase) -> CaseResult {
             v.label_if(chars.len() == 2, "two_chars");
         }
         Some((term, left, right)) => {
-            let template = format!("{left}{{wide_bar}}{right}{{frac}}");
-            let r = rig(&c.chars, &template, *term).map_err(|p| Fail::new("panic", format!("building {template:?} panicked: {p}")))?;
+            let mut template = format!("{left}{{wide_bar}}{right}{{frac}}");
+            let (mut nlines, mut bar_line) = (1, 0);
+            if let Some(a) = &c.extra.0 {
+                template = format!("{a}\n{template}");
+                nlines += 1;
+                bar_line = 1;
+            }
+            if let Some(b) = &c.extra.1 {
+                // (a final empty template line yields no output line)
+                if !b.is_empty() {
+                    template = format!("{template}\n{b}");
+                    nlines += 1;
+                }
+            }
+            let mut r = rig_in(&c.chars, &template, *term, c.in_multi).map_err(|p| Fail::new("panic", format!("building {template:?} panicked: {p}")))?;
+            r.nlines = nlines;
+            r.bar_line = bar_line;
+            if let Some(w0) = c.resized_from {
+                // a frame at the old width first, then the terminal is resized
+                r.vt.lock().report_cols = Some(w0.max(1));
+                let _ = r.draw(Some(7), 3);
+                r.vt.lock().report_cols = Some(*term);
+                v.label("terminal_resized_between_frames");
+            }
+            v.label_if(c.in_multi, "wide_bar_inside_multi_progress");
+            v.label_if(nlines > 1, "wide_bar_in_multi_line_template");
             let (line, frac) = r.draw(c.len, c.pos).map_err(|p| Fail::new("panic", format!("drawing {template:?} on {term} columns: {p}")))?;
             let rest = console::measure_text_width(left) + console::measure_text_width(right);
             let bar = line
@@ -265,8 +312,9 @@ fn geo_strategy() -> BoxedStrategy<GeoCase> {
         0.35,
         (prop_oneof![3 => 1u16..60, 1 => 60u16..300], "[a-z\\[ \u{e9}\u{4e16}]{0,8}", "[a-z\\] \u{e9}\u{4e16}]{0,8}"),
     );
-    (chars_strategy(), width, len_pos_strategy(), wide)
-        .prop_map(|(chars, width, (len, pos), wide)| GeoCase { chars, width, len, pos, wide })
+    let extra = (proptest::option::weighted(0.3, "[a-z:. \u{e9}\u{4e16}]{0,12}"), proptest::option::weighted(0.3, "[a-z:. \u{e9}\u{4e16}]{0,12}"));
+    (chars_strategy(), width, len_pos_strategy(), wide, extra, any::<bool>(), proptest::option::weighted(0.3, 1u16..300))
+        .prop_map(|(chars, width, (len, pos), wide, extra, in_multi, resized_from)| GeoCase { chars, width, len, pos, wide, extra, in_multi, resized_from })
         .boxed()
 }
 
@@ -390,7 +438,7 @@ pub fn property() -> Property {
                 cases: |t| t.pick(20_000, 1_000_000),
                 run: run_geo,
                 signature: no_signature,
-                essential: &["partial_progress", "full", "double_width_cells", "huge_len", "two_chars", "wide_bar", "rest_does_not_fit", "odd_remainder"],
+                essential: &["partial_progress", "full", "double_width_cells", "huge_len", "two_chars", "wide_bar", "wide_bar_in_multi_line_template", "wide_bar_inside_multi_progress", "terminal_resized_between_frames", "rest_does_not_fit", "odd_remainder"],
                 workers: w,
                 decode: None,
             }),
